@@ -165,7 +165,7 @@ Qed.
 Lemma template_lines rows :
   template (line_lengths offs (columns n rows) (length rows)) = concat (map (mixed 0) rows).
 Proof.
-  unfold line_lengths, template. rewrite columns_length.
+  unfold line_lengths, template, m_line_len. rewrite columns_length.
   rewrite concat_map_flat_map, concat_map, map_map.
   rewrite <- (map_seq_nth (mixed 0) [] rows). f_equal.
   apply map_ext. intros r. unfold mixed. rewrite map_map. apply map_ext_in. intros i Hi.
@@ -253,7 +253,7 @@ Theorem join_columns_rows (n : nat) (rows : list (list (list Z))) :
   (1 <= n)%nat -> Forall (fun r => length r = n) rows ->
   join_columns (columns n rows) (length rows) = concat (map text_line rows).
 Proof.
-  intros Hn Hrows. unfold join_columns. rewrite columns_length.
+  intros Hn Hrows. unfold join_columns, m_sep, m_newline, m_join_nl_start. rewrite columns_length.
   rewrite scatter_cells.
   rewrite concat_map, map_map.
   rewrite map_stride_rows.
